@@ -91,6 +91,18 @@ class ExprBuilder:
             if x == "deref":
                 e = X(("deref", e))
             elif isinstance(x, dict) and "f" in x:
+                # a field of a struct / tuple literal built in this function is the operand it was built from (related
+                # locals gathered in a small struct or a tuple read like the locals themselves)
+                base = e
+                while isinstance(base, X) and base.k in ("ref", "deref"):
+                    base = base[1]
+                if isinstance(base, X) and base.k == "agg" and base[1] not in ("(array)",):
+                    if base[4] and x["f"] in base[4] and x["of"] == base[1]:
+                        e = base[3][base[4].index(x["f"])]
+                        continue
+                    if base[1] == "(tuple)" and x["of"] == "(tuple)" and x["f"].isdigit() and int(x["f"]) < len(base[3]):
+                        e = base[3][int(x["f"])]
+                        continue
                 e = X(("field", e, x["of"], x["f"]))
             elif isinstance(x, dict) and "dc" in x:
                 e = X(("dc", e, x["dc"]))
